@@ -21,6 +21,7 @@ const UNREACHABLE: &[&str] = &[
 ];
 const BOUND: &str = "8 mappable fragments x 12 unreachable-position fragments x {same field, different fields} x both orders";
 
+static MAPS_SEEN: std::sync::atomic::AtomicU64 = std::sync::atomic::AtomicU64::new(0);
 fn advertised(js: &str) -> Vec<(String, usize)> {
     // A={"f":new Array(n),...}
     let mut out = vec![];
@@ -43,6 +44,7 @@ fn check(tmpl: &str, must_not: &[&str]) -> Option<(String, String)> {
     g.add_tmpl("p", tmpl);
     let js = match g.get_tmpl_gen_object("p") { Ok(j) => j, Err(_) => return None };
     let adv = advertised(&js);
+    if !adv.is_empty() { MAPS_SEEN.fetch_add(1, std::sync::atomic::Ordering::SeqCst); }
     for (f, n) in &adv {
         if must_not.contains(&f.as_str()) {
             return Some((format!("field {:?} is advertised: A={:?}", f, adv), format!("{:?} not advertised (used where the binding map cannot reach)", f)));
@@ -86,7 +88,7 @@ pub fn search() -> Outcome {
             _ => {}
         }
     }
-    Outcome::none(n, BOUND)
+    Outcome::none(n, &format!("{}; a non-empty binding map `A={{..}}` was recognised in {} of {} generated codes (0 would mean the textual oracle no longer applies)", BOUND, MAPS_SEEN.load(std::sync::atomic::Ordering::SeqCst), n))
 }
 pub fn run(input: &str) -> Outcome {
     let (t, bad) = input.split_once('\t').unwrap();
